@@ -390,7 +390,9 @@ def q_gen(rng, tier, malformed=False):
     end = rng.weighted([("marker", 5), ("fill", 2), ("garbage", 2)])
     backing = None
     if rng.chance(0.5):
-        backing = rng.pick(["base.qcow2", "/var/lib/images/base image.qcow2", rand_text(rng, rng.randint(1, 60), extra=" /")])
+        # short names matter: with an exactly-filled extension area nothing but the name separates it from zero bytes
+        backing = rng.pick(["base.qcow2", "/var/lib/images/base image.qcow2", rand_text(rng, rng.randint(1, 60), extra=" /"),
+                            rng.pick(["a", "b.q", "img1", "vm"]), rand_text(rng, rng.randint(1, 4))])
     if backing is not None and len(backing.encode()) > 1023:
         backing = "base.qcow2"
     c["garbage"] = ""
@@ -438,7 +440,8 @@ def q_gen(rng, tier, malformed=False):
                       "date_sec": rand_int(rng, 32), "date_nsec": rand_int(rng, 30), "vm_clock_nsec": rand_int(rng, 64),
                       "vm_state_size": rand_int(rng, 32), "extra": extra[:xs].hex(),
                       "id": rng.pick([str(i + 1), rand_text(rng, rng.randint(0, 9))]).encode().hex(),
-                      "name": rand_text(rng, rng.weighted([(0, 1), (rng.randint(1, 40), 6)]), extra=" ").encode().hex()})
+                      "name": (rand_text(rng, rng.weighted([(0, 1), (rng.randint(1, 40), 6)]), extra=" ")
+                               + rng.weighted([("", 8), ("\x00", 1), (" ", 1), ("\n", 1)])).encode().hex()})
     c["snaps"] = snaps
     c["nb_snapshots"] = ns
     c["snapshots_offset"] = cs * rng.randint(1, 4) if ns else rng.pick([0, cs])
@@ -796,7 +799,8 @@ def x_gen(rng, tier, malformed=False, parent_ok=True):
             else:
                 k = rand_text(rng, rng.randint(1, 12))
                 if all(k != e[0] for e in ents):
-                    ents.append([k, rand_text(rng, rng.weighted([(0, 1), (rng.randint(1, 80), 5)]), extra=" \\")])
+                    ents.append([k, rand_text(rng, rng.weighted([(0, 1), (rng.randint(1, 80), 5)]), extra=" \\")
+                                 + rng.weighted([("", 8), ("\x00", 1), (" ", 1)])])
         rng.shuffle(ents)
         order = list(range(2 * len(ents)))
         if rng.chance(0.5):
